@@ -341,7 +341,7 @@ theorem sumFees_insert (q : Payer) (base : List Tx) (t : Tx) (n : Nat) :
     rw [← sumFees_append, List.take_append_drop]
   rw [this]; simp only [sumFees]; omega
 
-theorem finish_insert {U : Tx → Prop} (hw : WF U) {mp1 : Pool} {base : List Tx} {t : Tx} (feer : Feer) (n : Nat)
+theorem finish_insert {U : Tx → Prop} (hw : WF U) {mp1 : Pool} {base : List Tx} {t : Tx} (feer : Feer) (d : Nat) (n : Nat)
     (htx : mp1.txs = base ++ [t]) (hnp : mp1.panicked = false) (hcap : base.length + 1 ≤ mp1.capacity)
     (hL : ListOk U base) (ht : U t)
     (hv : VmapOk base mp1.vmap) (hc : ConfOk base mp1.conflicts) (ho : OrcOk base mp1.oracleResp)
@@ -350,12 +350,12 @@ theorem finish_insert {U : Tx → Prop} (hw : WF U) {mp1 : Pool} {base : List Tx
     (hfresh : ∀ e ∈ base, e.id ≠ t.id) (hnoc1 : ∀ e ∈ base, t.id ∉ e.conflicts)
     (hnoc2 : ∀ e ∈ base, e.id ∉ t.conflicts) (horc : ∀ i, t.oracle = some i → ∀ e ∈ base, e.oracle ≠ some i)
     (fe : Fee) (hfe : mp1.fees (payerOf t) = some fe) (hle : fe.feeSum + t.fee ≤ fe.balance) :
-    Inv U (tryAddSendersFee (register { mp1 with txs := shiftInsert mp1.txs n t } t feer.height) t feer false).1 ∧
-    (tryAddSendersFee (register { mp1 with txs := shiftInsert mp1.txs n t } t feer.height) t feer false).1.txs
+    Inv U (tryAddSendersFee (register { mp1 with txs := shiftInsert mp1.txs n t } t feer.height d) t feer false).1 ∧
+    (tryAddSendersFee (register { mp1 with txs := shiftInsert mp1.txs n t } t feer.height d) t feer false).1.txs
       = base.take n ++ [t] ++ base.drop n ∧
-    (tryAddSendersFee (register { mp1 with txs := shiftInsert mp1.txs n t } t feer.height) t feer false).1.capacity = mp1.capacity ∧
-    (tryAddSendersFee (register { mp1 with txs := shiftInsert mp1.txs n t } t feer.height) t feer false).1.feePerByte = mp1.feePerByte := by
-  have hreg : (register { mp1 with txs := shiftInsert mp1.txs n t } t feer.height).fees (payerOf t) = some fe := hfe
+    (tryAddSendersFee (register { mp1 with txs := shiftInsert mp1.txs n t } t feer.height d) t feer false).1.capacity = mp1.capacity ∧
+    (tryAddSendersFee (register { mp1 with txs := shiftInsert mp1.txs n t } t feer.height d) t feer false).1.feePerByte = mp1.feePerByte := by
+  have hreg : (register { mp1 with txs := shiftInsert mp1.txs n t } t feer.height d).fees (payerOf t) = some fe := hfe
   rw [tryAddSendersFee_nocheck _ t feer fe hreg]
   have hadd : addW fe.feeSum t.fee = fe.feeSum + t.fee := by
     apply addW_eq
@@ -441,17 +441,31 @@ theorem filter_last_ne (base : List Tx) (u : Tx) (hnd : ((base ++ [u]).map (·.i
   have h2 : [u].filter (fun t => t.id != u.id) = [] := by simp
   rw [h1, h2, List.append_nil]
 
-theorem insertStage_spec {U : Tx → Prop} (hw : WF U) {mp : Pool} (hi : Inv U mp) {t : Tx} (ht : U t) (feer : Feer)
+/-- what a successful insertion stage guarantees -/
+def InsertPost (U : Tx → Prop) (mp : Pool) (t : Tx) (mp' : Pool) : Prop :=
+  Inv U mp' ∧ mp'.capacity = mp.capacity ∧ mp'.feePerByte = mp.feePerByte ∧ t ∈ mp'.txs ∧
+  (∀ x ∈ mp'.txs, x = t ∨ x ∈ mp.txs) ∧
+  (∀ x ∈ mp.txs, x ∉ mp'.txs →
+    mp'.txs.length = mp'.capacity ∧ (∀ y ∈ mp.txs, ge y x) ∧ 0 < compare t x) ∧
+  -- the new list: the old one (without its last item when the pool was full) with `t` at the computed index
+  mp'.txs = (if mp.txs.length = mp.capacity then mp.txs.dropLast else mp.txs).take (insertIdx mp.txs t) ++ [t] ++
+    (if mp.txs.length = mp.capacity then mp.txs.dropLast else mp.txs).drop (insertIdx mp.txs t)
+
+theorem inv_setEvents {U : Tx → Prop} {mp : Pool} (h : Inv U mp) (ev : List Event) : Inv U { mp with events := ev } :=
+  ⟨h.noPanic, h.cap, h.list, h.vmap, h.conf, h.orc, h.fees⟩
+
+theorem insertPost_setEvents {U : Tx → Prop} {mp mp3 : Pool} {t : Tx} (ev : List Event)
+    (h : InsertPost U mp t mp3) : InsertPost U mp t { mp3 with events := ev } := by
+  obtain ⟨a, b, c, d, e, f, g⟩ := h
+  exact ⟨inv_setEvents a ev, b, c, d, e, f, g⟩
+
+theorem insertStage_spec {U : Tx → Prop} (hw : WF U) {mp : Pool} (hi : Inv U mp) {t : Tx} (ht : U t) (feer : Feer) (d : Nat)
     (hfresh : ∀ e ∈ mp.txs, e.id ≠ t.id) (hnoc1 : ∀ e ∈ mp.txs, t.id ∉ e.conflicts)
     (hnoc2 : ∀ e ∈ mp.txs, e.id ∉ t.conflicts) (horc : ∀ i, t.oracle = some i → ∀ e ∈ mp.txs, e.oracle ≠ some i)
     (fe : Fee) (hfe : mp.fees (payerOf t) = some fe) (hle : t.fee + sumFees (payerOf t) mp.txs ≤ fe.balance) :
-    (∀ mp' e, insertStage mp t feer = (mp', some e) →
+    (∀ mp' e, insertStage mp t feer d = (mp', some e) →
       e = .oom ∧ mp' = mp ∧ mp.txs.length = mp.capacity ∧ ∀ x ∈ mp.txs, ge x t) ∧
-    (∀ mp', insertStage mp t feer = (mp', none) →
-      Inv U mp' ∧ mp'.capacity = mp.capacity ∧ mp'.feePerByte = mp.feePerByte ∧ t ∈ mp'.txs ∧
-      (∀ x ∈ mp'.txs, x = t ∨ x ∈ mp.txs) ∧
-      (∀ x ∈ mp.txs, x ∉ mp'.txs →
-        mp'.txs.length = mp'.capacity ∧ (∀ y ∈ mp.txs, ge y x) ∧ 0 < compare t x)) := by
+    (∀ mp', insertStage mp t feer d = (mp', none) → InsertPost U mp t mp') := by
   obtain ⟨hn, h2, h3⟩ := insertIdx_spec mp.txs t hi.list.sorted
   unfold insertStage
   simp only
@@ -472,6 +486,8 @@ theorem insertStage_spec {U : Tx → Prop} (hw : WF U) {mp : Pool} (hi : Inv U m
     · intro mp' h
       have hmp' := (Prod.mk.inj h).1
       subst hmp'
+      apply insertPost_setEvents
+      unfold InsertPost
       by_cases hfull : mp.txs.length = mp.capacity
       · -- eviction of the last item
         have hnlt : n < mp.txs.length := by
@@ -503,7 +519,7 @@ theorem insertStage_spec {U : Tx → Prop} (hw : WF U) {mp : Pool} (hi : Inv U m
           have := a4 (payerOf t); rw [hfe'] at this; exact this.1
         have hsumle := sumFees_sublist (payerOf t) hsub
         obtain ⟨r1, r2, r3, r4⟩ := finish_insert hw (mp1 := removeFromMap { mp with txs := base ++ [t] } u) (base := base)
-          (t := t) feer (n) a5 (by rw [a7]; exact hi.noPanic)
+          (t := t) feer d (n) a5 (by rw [a7]; exact hi.noPanic)
           (by rw [a6]; have : mp.txs.length = base.length + 1 := by rw [hbase]; simp
               show base.length + 1 ≤ mp.capacity
               omega)
@@ -514,7 +530,7 @@ theorem insertStage_spec {U : Tx → Prop} (hw : WF U) {mp : Pool} (hi : Inv U m
           (fun e he => hfresh e (hsub.subset he)) (fun e he => hnoc1 e (hsub.subset he))
           (fun e he => hnoc2 e (hsub.subset he)) (fun i hi' e he => horc i hi' e (hsub.subset he))
           fe' hfe' (by omega)
-        refine ⟨r1, by rw [r3, a6], by rw [r4, a8], by rw [r2]; simp, ?_, ?_⟩
+        refine ⟨r1, by rw [r3, a6], by rw [r4, a8], by rw [r2]; simp, ?_, ?_, by rw [r2, if_pos hfull, hdl, hnn]⟩
         · intro x hx
           rw [r2] at hx
           rcases List.mem_append.mp hx with hx | hx
@@ -559,12 +575,12 @@ theorem insertStage_spec {U : Tx → Prop} (hw : WF U) {mp : Pool} (hi : Inv U m
         have hfesum : fe.feeSum = sumFees (payerOf t) mp.txs := by
           have := hi.fees (payerOf t); rw [hfe] at this; exact this.1
         obtain ⟨r1, r2, r3, r4⟩ := finish_insert hw (mp1 := { mp with txs := mp.txs ++ [t] }) (base := mp.txs)
-          (t := t) feer (n) rfl hi.noPanic
+          (t := t) feer d (n) rfl hi.noPanic
           (by have := hi.cap
               show mp.txs.length + 1 ≤ mp.capacity
               omega)
           hi.list ht hi.vmap hi.conf hi.orc hi.fees hn h2 h3 hfresh hnoc1 hnoc2 horc fe hfe (by omega)
-        refine ⟨r1, r3, r4, by rw [r2]; simp, ?_, ?_⟩
+        refine ⟨r1, r3, r4, by rw [r2]; simp, ?_, ?_, by rw [r2, if_neg hfull, hnn]⟩
         · intro x hx
           rw [r2] at hx
           rcases List.mem_append.mp hx with hx | hx
